@@ -57,4 +57,32 @@ META = {
                       "Termination is observed (runs with a 1h limit end by themselves), not proved.",
         "technique": "runtime monitoring of the shrinker through stream snapshots at property entry/exit; site/chain oracle; bounded-progress check for termination",
     },
+    "C04": {
+        "level": "exploration",
+        "evaluations": ["recordings", "example_pairs", "check_pairs"],
+        "required": ["recordings", "example_pairs", "check_pairs", "prune_replays_with_removed_bits", "recordings_with_rejected_attempts", "digest_keys_seen_in_2_processes"],
+        "show": ["recordings", "prune_replays_judged", "prune_replays_with_removed_bits", "example_pairs", "check_pairs", "digest_keys_seen_in_2_processes"],
+        "rule": "rejection-heavy random programs x 20 seeds each: record (recording PRNG stream) -> same seed again -> replay as recorded -> "
+                "prune (real prune() vs reference prune) -> replay pruned, comparing draws and verdict; Example(seed) pairs; whole Checks with a "
+                "fixed -rapid.seed run twice in one process with unrelated checks / cache use in between; a sample of all seeds is evaluated by two "
+                "different shard processes with different histories and compared by digest; non-trivial+distinct = distinct (program, seed) "
+                "recordings of complete runs from which prune() removed bits, plus distinct example values and check pairs",
+        "assumptions": COMMON_ASSUME + ["replay with rejected attempts removed is judged for complete (passing/failing) runs only; for runs rejected as invalid only the as-recorded replay is judged"],
+        "level_text": "Runtime differential monitor: the same bits are pushed through the real streams twice (PRNG twice, recording vs buffer "
+                      "replay, recording vs pruned replay, two processes) and all draws/verdicts compared; held on the recordings produced.",
+        "technique": "record/replay differential monitor via stream hooks (VerifRecord/VerifReplay/VerifPrune), reference prune, cross-process digests",
+    },
+    "C07": {
+        "level": "exploration",
+        "evaluations": ["runs_A", "runs_B"],
+        "required": ["failures", "runs_B", "same_seed_pairs", "first_failure_index_bucket:10", "first_failure_index_bucket:30", "digest_keys_seen_in_2_processes"],
+        "show": ["failures", "runs_B", "same_seed_pairs", "time_cut_not_compared", "digest_keys_seen_in_2_processes"],
+        "rule": "random programs whose falsifier has probability 1/k (k=1..60) so that the first falsified case occurs at index 0..100+; run A with "
+                "a random or given base seed, parse -rapid.seed=N from the TB error, run B with that seed: first case must draw A's failing values, "
+                "fail after 0 tests with the same minimised result; same-seed pairs in one process and across two shard processes must have identical "
+                "digests (all invocations, messages modulo durations/harness frames/pointer addresses); non-trivial+distinct = distinct programs with a reported failure",
+        "assumptions": COMMON_ASSUME + ["runs whose minimisation was still going close to the 3s shrink limit are not compared (clock-dependent cut is legal)"],
+        "level_text": "Runtime monitor over two-run histories of the real Check (original run, re-run with the printed seed), in-process and across processes.",
+        "technique": "two-run history monitor: parse printed seed from TB output, re-run, compare invocation logs; cross-process digests",
+    },
 }
